@@ -394,7 +394,9 @@ class Walk:
         x = start
         r0 = rel_of(p, canon_prefix(table, x), q)
         self.start_rel = r0
-        if r0 not in ("EQ", "SUP"):
+        if r0 is None and x == "0":
+            r0 = self.start_rel = "SUP|EQ"     # the root covers every query (zero-length prefix)
+        if r0 not in ("EQ", "SUP", "SUP|EQ"):
             self.covers = False
             return
         self.covers = True
